@@ -58,7 +58,10 @@ def judge(v, seq, seed, rnd, stats, edit_silent_peer=None):
                     signature={'component': 'terminated', 'kind': loop.current, 'exception': type(ex).__name__})
         return
     a, b = loop.legit.established()
-    if 'NEWSA' in loop.netlink_refused:
+    if getattr(loop, 'own_teardown', False):
+        # the daemon's own lifetime timers ended / replaced the IKE_SA: the scripted session does not apply any more; it must survive and answer the status query
+        stats['own_teardown'] = stats.get('own_teardown', 0) + 1
+    elif 'NEWSA' in loop.netlink_refused:
         # the kernel refused to install an SA: the session cannot complete, and that is not the daemon's fault; it must survive and answer
         stats['kernel_refusals_hit'] = stats.get('kernel_refusals_hit', 0) + 1
     elif not loop.legit.completed:
